@@ -20,26 +20,27 @@ import (
 const trzszPath = "github.com/trzsz/trzsz-go/trzsz"
 
 type Program struct {
-	Dir           string
-	GOOS          string
-	GOARCH        string
-	Fset          *token.FileSet
-	Pkgs          []*packages.Package
-	Pkg           *packages.Package // the trzsz package
-	Prog          *ssa.Program
-	SPkg          *ssa.Package
-	Funcs         map[string]*ssa.Function // "name", "Recv.name", "name$1"
-	AllFns        []*ssa.Function          // all functions with bodies in trzsz (incl. anonymous)
-	decls         map[string]*ast.FuncDecl
-	Blocks        int
-	Instrs        int
-	ConstBranches int      // branches on a constant condition whose dead side was pruned
-	Inlined       int      // call sites of helpers unknown to the reference tree that were expanded (inlinenew.go)
-	InlinedAway   []string // such helpers with no remaining use
-	Normalized    int      // functions whose merged-condition branches were threaded (xssa.NormalizeBranches)
-	NewKept       []string // functions unknown to the reference tree that remain (started with go, used as a value, exported)
-	Reordered     []string // functions whose parameter order was put back to the reference tree's
-	cgCache       *CG
+	Dir                string
+	GOOS               string
+	GOARCH             string
+	Fset               *token.FileSet
+	Pkgs               []*packages.Package
+	Pkg                *packages.Package // the trzsz package
+	Prog               *ssa.Program
+	SPkg               *ssa.Package
+	Funcs              map[string]*ssa.Function // "name", "Recv.name", "name$1"
+	AllFns             []*ssa.Function          // all functions with bodies in trzsz (incl. anonymous)
+	decls              map[string]*ast.FuncDecl
+	Blocks             int
+	Instrs             int
+	ConstBranches      int      // branches on a constant condition whose dead side was pruned
+	Inlined            int      // call sites of helpers unknown to the reference tree that were expanded (inlinenew.go)
+	InlinedAway        []string // such helpers with no remaining use
+	Normalized         int      // functions whose merged-condition branches were threaded (xssa.NormalizeBranches)
+	NewKept            []string // functions unknown to the reference tree that remain (started with go, used as a value, exported)
+	NormalisationError string   // set when the tree had to be analysed without normalisation
+	Reordered          []string // functions whose parameter order was put back to the reference tree's
+	cgCache            *CG
 }
 
 func repoDir() string {
@@ -49,7 +50,22 @@ func repoDir() string {
 	return "/repo"
 }
 
+// loadProgram loads and normalises the tree (inlinenew.go). Should the normalisation itself fail on some shape of
+// code (inconsistent SSA after an expansion, a panic in the expander), the tree is loaded again and analysed as it
+// is, and the evidence says so: a defect of the expander must not make twenty checks undecidable.
 func loadProgram(goos, goarch string) (*Program, error) {
+	p, err := loadProgramOpt(goos, goarch, true)
+	if err != nil && strings.Contains(err.Error(), "normalisation failed") {
+		msg := err.Error()
+		p, err = loadProgramOpt(goos, goarch, false)
+		if p != nil {
+			p.NormalisationError = msg
+		}
+	}
+	return p, err
+}
+
+func loadProgramOpt(goos, goarch string, normalise bool) (*Program, error) {
 	dir := repoDir()
 	env := append(os.Environ(), "GOFLAGS=-mod=mod", "GOPROXY=off", "GOSUMDB=off", "GOTOOLCHAIN=local", "GOWORK=off", "CGO_ENABLED=0")
 	if goos != "" {
@@ -105,9 +121,22 @@ func loadProgram(goos, goarch string) (*Program, error) {
 			p.SPkg = sp
 		}
 	}
-	dropped, err := inlineNewHelpers(p)
-	if err != nil {
-		return nil, err
+	var dropped map[*ssa.Function]bool
+	if normalise {
+		func() {
+			defer func() {
+				if r := recover(); r != nil {
+					err = fmt.Errorf("normalisation failed: panic: %v", r)
+				}
+			}()
+			dropped, err = inlineNewHelpers(p)
+			if err != nil {
+				err = fmt.Errorf("normalisation failed: %v", err)
+			}
+		}()
+		if err != nil {
+			return nil, err
+		}
 	}
 	// index functions
 	var addFn func(name string, f *ssa.Function)
